@@ -240,6 +240,10 @@ pub assume_specification<T, U, D: FnOnce() -> U, F: FnOnce(T) -> U>[Option::<T>:
         o is None ==> default.ensures((), r),
         o is Some ==> f.ensures((o->Some_0,), r);
 
+/// `u32::wrapping_neg` (core): two's-complement negation (TRUSTED std specification)
+pub assume_specification[u32::wrapping_neg](x: u32) -> (r: u32)
+    ensures r as int == (0x1_0000_0000 - x as int) % 0x1_0000_0000;
+
 pub assume_specification[u32::next_multiple_of](x: u32, m: u32) -> (r: u32)
     requires m != 0, ((x as int + m as int - 1) / (m as int)) * (m as int) <= u32::MAX,
     ensures r as int == ((x as int + m as int - 1) / (m as int)) * (m as int);
